@@ -1,7 +1,7 @@
 #!/usr/bin/env bash
 # Apply a seeded change to /repo, run checks, undo. usage: run_against.sh <patch.diff> <prop> [<prop>...]
 set -u
-P=$1; shift
+P=$(readlink -f "$1"); shift
 git -C /repo status --short | grep -q . && { echo "/repo not clean"; exit 2; }
 git -C /repo apply "$P" || exit 2
 trap 'git -C /repo checkout -q -- .' EXIT
